@@ -55,6 +55,23 @@ class Node:
         ]
 
 
+def _in_stable_order(arg: Any) -> Any:
+    """
+    A set (or frozenset) given where a collection of values is expected has no order of its own: it is written in one that
+    does not change with the process' hash seed - terms by their qualified SQL text, plain values by their repr.
+    """
+    if not isinstance(arg, (set, frozenset)):
+        return arg
+    return sorted(
+        arg,
+        key=lambda v: (
+            v.get_sql(DEFAULT_SQL_CONTEXT.copy(with_namespace=True))
+            if isinstance(v, Term)
+            else repr(v)
+        ),
+    )
+
+
 class Term(Node):
     is_aggregate: bool | None = False
 
@@ -197,16 +214,7 @@ class Term(Node):
         return All(self)
 
     def isin(self, arg: list | tuple | set | "Term") -> "ContainsCriterion":
-        if isinstance(arg, set):
-            # a set has no order of its own: written in one that does not change with the process' hash seed
-            arg = sorted(
-                arg,
-                key=lambda v: (
-                    v.get_sql(DEFAULT_SQL_CONTEXT.copy(with_namespace=True))
-                    if isinstance(v, Term)
-                    else repr(v)
-                ),
-            )
+        arg = _in_stable_order(arg)
         if isinstance(arg, (list, tuple)):
             return ContainsCriterion(self, Tuple(*arg))
         return ContainsCriterion(self, arg)
@@ -594,10 +602,10 @@ class JSON(Term):
         )
 
     def has_keys(self, other: Iterable) -> "BasicCriterion":
-        return BasicCriterion(JSONOperators.HAS_KEYS, self, Array(*other))
+        return BasicCriterion(JSONOperators.HAS_KEYS, self, Array(*_in_stable_order(other)))
 
     def has_any_keys(self, other: Iterable) -> "BasicCriterion":
-        return BasicCriterion(JSONOperators.HAS_ANY_KEYS, self, Array(*other))
+        return BasicCriterion(JSONOperators.HAS_ANY_KEYS, self, Array(*_in_stable_order(other)))
 
 
 class Values(Term):
